@@ -10,7 +10,7 @@ CHECK = {
             "Marshal/Unmarshal, SnapshotSave/OfflineState, raft and crdt state-manager export/import (and a started Raft peer on some); "
             "rot: (retention, pre-existing folder set with gaps/outside the window, 1-14 clean/save/mkdir/reconfigure operations) on real folders; "
             "ps: (peerstore content with ip/dns/multiple addresses and priorities, requested peers) saved, loaded and imported by a fresh host, "
-            "and hand-written files with malformed lines; one splitmix64 stream per case index; non-trivial = exercises a clause; distinct by case line",
+            "and hand-written files with malformed lines in every shape (LF/CRLF/CRCRLF line ends, final newline or not, byte order mark); reshaped export streams; folder-name spellings; one splitmix64 stream per case index; non-trivial = exercises a clause; distinct by case line",
     "trusted_base": ["byte-level codecs of the atoms (cid, peer id, multiaddress, strings, time) are abstracted to table indices: "
                      "the harness maps real values back to indices and reports anything it cannot map",
                      "go-datastore MapDatastore/leveldb, hashicorp/raft FileSnapshotStore, libp2p memory peerstore behave as their APIs say"],
